@@ -7,7 +7,7 @@ from harness import core, py2lean, instantiate
 from harness.core import Outcome, f2b, b2f
 
 ID = "C05"
-LEAN_TARGETS = ["BeyondVerif.Props.C05"]
+LEAN_TARGETS = ["BeyondVerif.Props.C05", "BeyondVerif.Lemmas.TwoBody"]
 THEOREMS = [
     "BeyondVerif.C05.meanMotion_formula",
     "BeyondVerif.C05.kepler_elements_constant",
@@ -20,6 +20,7 @@ THEOREMS = [
     "BeyondVerif.C05.kepler_equation_solution_unique",
     "BeyondVerif.C05.kepler_equation_equivariant",
     "BeyondVerif.C05.hyperbolic_kepler_equation_solution_unique",
+    "BeyondVerif.C05.kepler_solves_two_body",
     "BeyondVerif.C05.kepler_cart_compose",
     "BeyondVerif.C05.kepler_cart_inverse",
     "BeyondVerif.C05.kepler_cart_periodic",
@@ -35,12 +36,13 @@ THEOREMS = [
     "BeyondVerif.C05.j2_node_rate_eq_sso",
 ]
 LEVEL_TEXT = ("Lean theorems over R about the element update translated from kepler.py, j2.py and Infos.n on every run: a, e, i, node, perigee constant and "
-              "M advanced by sqrt(mu/|a|^3) dt for all inputs; composition and inverse exact for all t1, t2; one period adds exactly 2 pi; "
+              "M advanced by sqrt(mu/|a|^3) dt for all inputs; composition and inverse exact for all t1, t2; one period adds exactly 2 pi; for bound orbits the perifocal "
+              "coordinates of the propagated state satisfy Newton's equation r'' = -mu r/|r|^3 (HasDerivAt, all t); "
               "J2 keeps a, e, i, is linear in dt with exactly the first-order secular rates (no node drift at cos i = 0, no perigee drift at 5 cos^2 i = 1, "
               "node rate = Earth's mean motion for the inclination returned by leo.sso), composes modulo 2 pi. Cartesian-level composition / inverse / "
               "periodicity are proved from the form round trip as explicit hypotheses (C01). Differential correspondence against Orbit.propagate from every form.")
 LEVEL_NOTE = ("R -> double gap covered only by tolerance-bounded correspondence; form conversions (C01) enter as hypotheses; that advancing M at rate n solves the "
-              "two-body ODE is cited, not formalised (oracle: independent universal-variable propagator); Lean kernel + propext/Classical.choice/Quot.sound; "
+              "two-body ODE is proved for bound orbits in the orbital plane only (hyperbolic case: oracle, independent universal-variable propagator); Lean kernel + propext/Classical.choice/Quot.sound; "
               "py2lean translator and harness trusted")
 TECHNIQUE = "Lean 4 proof (ring / field identities, floor arithmetic) over formulas regenerated from the Python AST; differential correspondence; oracle on the real API"
 TRUSTED = [
@@ -52,7 +54,9 @@ TRUSTED = [
 ASSUMPTIONS = ["cartesian-level theorems take the keplerian_mean <-> cartesian round trip (up to 2 pi k on M for e < 1) and the 2 pi-periodicity of mean -> cartesian as hypotheses hRT / hPer (C01)",
                "theorems are over R; the implementation computes in IEEE doubles",
                "frames are only labels here: the propagators never change the frame"]
-NOT_COVERED = ["that Keplerian elements with M advancing at rate n solve the two-body ODE (classical, cited); agreement with the independent universal-variable solution is oracle only",
+NOT_COVERED = ["two-body solution: proved for bound orbits in the orbital plane (kepler_solves_two_body: perifocal coordinates of the propagated state satisfy r'' = -mu r/|r|^3 with the same mu); "
+               "the hyperbolic counterpart, the constant rotation of the orbital plane into the frame, and that the library's mean -> cartesian conversion computes these coordinates (C01) are not formalised; "
+               "agreement with the independent universal-variable solution (elliptic and hyperbolic, both time directions) is oracle only",
                "J2 on hyperbolic orbits: the code returns NaN silently (sqrt(1 - e^2)); secular J2 theory is defined for bound orbits only, the model reproduces the NaN, the theorems assume e < 1 where sqrt matters"]
 OPEN = ["hyperbolic M2E overflow (lead 18) is a floating-point phenomenon outside the R model: confirmed by the oracle at propagation level, recorded as known finding C05-hyperbolic-M2E-overflow; no kernel witness (Float is opaque to the kernel)"]
 RULE = ("correspondence: random orbits (e log/uniform in [1e-4,0.95] and [1.01,10], perigee radius 6.6e6..5e7 m, every form the conic admits, dt in +-30 d quantised to ms) through "
